@@ -72,12 +72,29 @@ def rekey(r):
     """Keys of process-level verdicts (time-out, fatal error) name the input class: the bundles of the document."""
     k = r["key"]
     d = r.get("detail")
-    if k == "timeout" or k.startswith("fatal:"):
-        scn = d if isinstance(d, dict) else {}
-        kind = "hang" if k == "timeout" else "fatal"
-        tail = "" if k == "timeout" else ":" + k[len("fatal:"):]
-        return "C01:%s:%s%s" % (kind, bundles_of(scn), tail)
+    if k.startswith("timeout:") or k.startswith("fatal:"):
+        if isinstance(d, dict) and nested_footnotes(d):
+            # (the running function of this unbounded recursion differs from run to run: the finding is named by its input)
+            return "C01:hang-or-stack-overflow:footnote-inside-a-footnote"
+        if k.startswith("timeout:"):
+            return "C01:hang:" + k[len("timeout:"):]
+        return "C01:fatal:" + k[len("fatal:"):]
+    if k.startswith("C01:") and isinstance(d, dict) and isinstance(d.get("scenario"), dict) and nested_footnotes(d["scenario"]):
+        return "C01:hang-or-stack-overflow:footnote-inside-a-footnote"
     return k
+
+
+def nested_footnotes(scn):
+    ns = scn.get("nodes") or []
+    for k, n in enumerate(ns):
+        if not n["b"].startswith("footnote"):
+            continue
+        p = n["p"]
+        while p > 0:
+            if ns[p - 1]["b"].startswith("footnote"):
+                return True
+            p = ns[p - 1]["p"]
+    return False
 
 
 MUT_TOKENS = ["<div>", "</div>", "<table>", "<td>", "</table>", "<span style=\"float:footnote\">", "<svg>", "</svg>", "<!--", "-->", "<style>", "</style>", "{", "}", ";", ":", "(", ")",
@@ -209,8 +226,8 @@ def run(ctx):
                     r = json.loads(line)
                     if r.get("kind") != "disagree":
                         continue
-                    if r["key"] == "timeout" or r["key"].startswith("fatal:"):
-                        extra_recs.append({"sid": -1, "cfg": "?", "units": 0, "fnotes": 0, "evs": [{"e": "Call", "k": 0, "what": ""}, {"e": "Timeout" if r["key"] == "timeout" else "Fatal", "k": 0, "what": r["key"][:80]}]})
+                    if r["key"].startswith("timeout:") or r["key"].startswith("fatal:"):
+                        extra_recs.append({"sid": -1, "cfg": "?", "units": 0, "fnotes": 0, "evs": [{"e": "Call", "k": 0, "what": ""}, {"e": "Timeout" if r["key"].startswith("timeout:") else "Fatal", "k": 0, "what": r["key"][:80]}]})
         summ = ctx.consume_verdicts(ver, rec_path=rec)
         c = summ.get("counts", {})
         stride = 1
